@@ -159,18 +159,25 @@ def run(tier: str, seed: int, replay=None) -> int:
         for L in range(1, 5):
             for seq in itertools.product(TERMINAL, repeat=L):
                 for cat in "ndx":
-                    for (tried, mx) in ((0, 1), (1, 1)):
-                        if tier == "quick" and L == 4 and rng.random() > 0.08:
+                    # (budget left | spent | overdrawn: a forced retry takes the counter past the budget)
+                    for (tried, mx) in ((0, 1), (1, 1), (2, 1), (1, 0)):
+                        if tier == "quick" and (L == 4 and rng.random() > 0.05 or L == 3 and tried > mx and rng.random() > 0.3):
                             continue
                         jobs.append(("plain", cat, tried, mx, list(seq)))
         Ld = 3 if tier == "quick" else 4
         for L in range(1, Ld + 1):
             for seq in itertools.product(DEPOPS, repeat=L):
-                for (tried, mx) in ((0, 1), (1, 1)):
+                for (tried, mx) in ((0, 1), (1, 1), (2, 1)):
                     for res_on in (True, False):
-                        if tier == "quick" and L == 3 and rng.random() > 0.35:
+                        if tier == "quick" and L == 3 and rng.random() > 0.3:
                             continue
                         jobs.append(("dep", tried, mx, res_on, list(seq)))
+        if tier == "quick":
+            # the length-4 programs that interleave result setting and callback registration before one eager action
+            for pre in itertools.product(["set_result", "set_exception", "add_callback"], repeat=3):
+                for t in TERMINAL:
+                    for res_on in (True, False):
+                        jobs.append(("dep", 0, 1, res_on, list(pre) + [t]))
     with pool() as ex:
         traces = list(ex.map(_run, jobs, chunksize=64))
     v = tlc.validate_traces("Trace_MessageApi", "Trace_MessageApi.cfg", traces, chunk=8000)
